@@ -297,6 +297,7 @@ let dot_tokens (h : hp) (l : n dotstmt list) (ga : int) (na : int) (ea : int) : 
     | EdgeStmt (u, v, e, a) ->
         if not a then Printf.sprintf "E:%s>%s" (key_str h u) (key_str h v)
         else if ea = 3 then Printf.sprintf "E:%s>%s:[p=\"%s>%s:%d\"]" (key_str h u) (key_str h v) (key_str h u) (key_str h v) (int_of_n e)
+        else if ea = 6 then Printf.sprintf "E:%s>%s:[w=\"%d\"][c=\"x\"]" (key_str h u) (key_str h v) (int_of_n e)
         else Printf.sprintf "E:%s>%s:[w=\"%d\"]" (key_str h u) (key_str h v) (int_of_n e) in
   (* the document is `digraph {` ... `}`: the harness reports the opening and the closing line as tokens too *)
   String.concat " " ("OPEN" :: List.map tok l @ ["CLOSE"])
@@ -538,7 +539,7 @@ and run_case_model (oc : out_channel) (c : case) : unit =
           let ga = ios st.(2) and na = ios st.(3) and ea = ios st.(4) in
           let nattr u = (na = 1) || (na = 2 && (match keyof !h u with Some k -> int_of_n k mod 2 = 0 | None -> false)) in
           let kn u = (match keyof !h u with Some k -> int_of_n k | None -> 0) in
-          let eattr u v e = (ea = 1) || (ea = 2 && int_of_n e mod 2 = 0) || (ea = 3) || (ea = 4 && kn u < kn v) in
+          let eattr u v e = (ea = 1) || (ea = 2 && int_of_n e mod 2 = 0) || (ea = 3) || (ea = 6) || (ea = 4 && kn u < kn v) in
           Printf.sprintf "%s dot %s" (ord_chk (getg (ios st.(1))) order)
             (dot_tokens !h (g_to_dot_attr keqb directed !h (getg (ios st.(1))) order
                               (nat_of_int (if ga = 1 then 2 else 0)) nattr eattr) ga na ea)
